@@ -377,6 +377,95 @@ fn pairs_child(ctx: &Ctx, st: &Stats, i: usize, n: usize) {
     st.sample(json!({"kind":"pair","example":[pairs[0].0, pairs[0].1]}));
 }
 
+
+// ---------------------------------------------------------------- free-running threads (monitor, not exhaustive)
+/// Real OS threads hammering the cache with a rotating mix of sizes for a fixed number of requests each. This is
+/// NOT part of the exhaustive exploration (loom decides the schedules it can see); it is a monitor for
+/// synchronisation that a change introduces outside the primitives loom intercepts. A failing execution is a
+/// genuine counterexample; a silent run proves nothing and is reported as such.
+fn stress(st: &Stats, rounds: usize) -> Result<u64, String> {
+    if stuck() {
+        return Ok(0);
+    }
+    let sizes: [u16; 6] = [10, 11, 40, 101, 257, 300];
+    let refs: Vec<(u16, SourceBlockEncoder)> = sizes
+        .iter()
+        .map(|&k| {
+            let plan = SourceBlockEncodingPlan::generate(k);
+            (k, SourceBlockEncoder::with_encoding_plan(0, &block_cfg(k as u32, 1), &data_for(k), &plan))
+        })
+        .collect();
+    verif_plan_cache_clear();
+    let failure: std::sync::Mutex<Option<String>> = std::sync::Mutex::new(None);
+    let done = std::sync::atomic::AtomicU64::new(0);
+    let threads = 6usize;
+    let (tx, rx) = std::sync::mpsc::channel::<()>();
+    std::thread::scope(|sc| {
+        for t in 0..threads {
+            let refs = &refs;
+            let failure = &failure;
+            let done = &done;
+            let tx = tx.clone();
+            sc.spawn(move || {
+                for i in 0..rounds {
+                    if failure.lock().unwrap().is_some() {
+                        break;
+                    }
+                    let k = sizes[(i * (t + 1) + t) % sizes.len()];
+                    let r = guarded(|| SourceBlockEncoder::new(0, &block_cfg(k as u32, 1), &data_for(k)));
+                    let want = &refs.iter().find(|x| x.0 == k).unwrap().1;
+                    let bad = match r {
+                        Err(p) => Some(format!("SourceBlockEncoder::new(K={}) panicked while {} threads use the cache: {}", k, threads, p)),
+                        Ok(e) => {
+                            if &e != want || guarded(|| e.repair_packets(0, 2)).ok() != Some(want.repair_packets(0, 2)) {
+                                Some(format!("encoder for K={} obtained while {} threads use the cache with other sizes differs from the encoder built from a fresh plan", k, threads))
+                            } else {
+                                None
+                            }
+                        }
+                    };
+                    if let Some(m) = bad {
+                        let mut f = failure.lock().unwrap();
+                        if f.is_none() {
+                            *f = Some(m);
+                        }
+                        break;
+                    }
+                    done.fetch_add(1, std::sync::atomic::Ordering::Relaxed);
+                }
+                let _ = tx.send(());
+            });
+        }
+        drop(tx);
+        // all workers must report back within the limit; otherwise the cache is stuck
+        let deadline = std::time::Instant::now() + std::time::Duration::from_secs(120);
+        let mut back = 0;
+        while back < threads {
+            let left = deadline.saturating_duration_since(std::time::Instant::now());
+            match rx.recv_timeout(left) {
+                Ok(()) => back += 1,
+                Err(_) => {
+                    let mut f = failure.lock().unwrap();
+                    if f.is_none() {
+                        *f = Some(format!("{} of {} free-running threads did not come back from SourceBlockEncoder::new within 120 s", threads - back, threads));
+                    }
+                    STUCK.store(true, std::sync::atomic::Ordering::SeqCst);
+                    // the scope would wait for ever for the stuck threads: end the process after reporting
+                    let msg = f.clone().unwrap();
+                    drop(f);
+                    st.violation("stress:stuck".into(), msg, json!({"kind":"stress","rounds":rounds}));
+                    return;
+                }
+            }
+        }
+    });
+    let n = done.load(std::sync::atomic::Ordering::Relaxed);
+    match failure.into_inner().unwrap() {
+        Some(m) => Err(m),
+        None => Ok(n),
+    }
+}
+
 // ---------------------------------------------------------------- loom
 fn loom_models(quick: bool) -> Vec<(&'static str, Option<usize>)> {
     if quick {
@@ -431,6 +520,7 @@ fn run_loom(model: &str, bound: Option<usize>) -> Result<String, String> {
 pub fn replay(case: &Value) -> Result<(), String> {
     match case["kind"].as_str().unwrap_or("") {
         "history" => replay_history(case),
+        "stress" => { let st = Stats::new(); stress(&st, case["rounds"].as_u64().unwrap_or(3000) as usize).map(|_| ()) }
         "pair" => {
             let mut refs = Refs { map: HashMap::new() };
             pair_case(case["k1"].as_u64().unwrap() as u16, case["k2"].as_u64().unwrap() as u16, &mut refs)
@@ -461,6 +551,11 @@ pub fn run(ctx: &Ctx) -> i32 {
         let pair_handles: Vec<_> = (0..slices).map(|i| { let st = &st; sc.spawn(move || run_child_and_merge(ctx, st, "RQ_BIN_RELEASE", "pairs", &["--pairs".to_string(), format!("{}/{}", i, slices)])) }).collect();
         histories(ctx, &st);
         st.note(format!("histories finished after {:.1} s", ctx.elapsed()));
+        let rounds = if ctx.quick() { 3000 } else { 30000 };
+        match stress(&st, rounds) {
+            Ok(n) => { st.count("stress_requests_free_running_threads_not_exhaustive", n); }
+            Err(m) => st.violation("stress".into(), m, json!({"kind":"stress","rounds":rounds})),
+        }
         for h in pair_handles {
             let _ = h.join();
         }
@@ -490,7 +585,7 @@ pub fn run(ctx: &Ctx) -> i32 {
     st.sample(json!({"kind":"history","seed":"capacity-1 plans","requests":["new1","new2","oldest","most-recently-evicted"],"oracle":"encoder == encoder from a fresh plan; cache snapshot == FIFO model; |plans| <= 64; order duplicate-free and = keys; plan count == key"}));
     finish(ctx, &st, Finish {
         level: "model_checking",
-        rule: "schedules: loom explores all interleavings (DPOR; unbounded for L1, L3, L4, L6; preemption-bounded for L2, L5, L7-L11 - see notes; L8, L9, L11 use block sizes on the far side of the 250-symbol back-end threshold, L10 has four threads) of real threads calling the real SourceBlockEncoder::new against the real process-wide cache compiled with loom's Mutex/Arc/lazy_static (scheduling points at every lock, Arc clone/drop and the static's initialisation); in every execution every returned encoder must equal the encoder built from a fresh plan, and after each request and at the end |plans| <= capacity, insertion order is a duplicate-free listing of exactly the stored keys, each plan was generated for its key. histories: breadth-first exploration of request sequences (alphabet new1, new2, new-large (>= 400 symbols), oldest, newest, middle, most-recently-evicted) from 7 seed prefixes around the capacity (incl. caches whose plans are all large and all requested twice), each node re-established by replaying its whole request history on a cleared real global cache, de-duplicated by the cache snapshot; every request runs under a time limit (a call that does not return is a violation); no eviction policy is assumed: only transparency and the invariants are judged; plus all sequences of a fixed length on one continuously living cache; plus every ordered pair of confusable block sizes (Table 2 rows sharing their systematic index, neighbouring rows, sizes padded to the same K') requested one after the other on an empty cache. distinct_nontrivial = distinct cache states + distinct final orders.".into(),
+        rule: "schedules: loom explores all interleavings (DPOR; unbounded for L1, L3, L4, L6; preemption-bounded for L2, L5, L7-L11 - see notes; L8, L9, L11 use block sizes on the far side of the 250-symbol back-end threshold, L10 has four threads) of real threads calling the real SourceBlockEncoder::new against the real process-wide cache compiled with loom's Mutex/Arc/lazy_static (scheduling points at every lock, Arc clone/drop and the static's initialisation); in every execution every returned encoder must equal the encoder built from a fresh plan, and after each request and at the end |plans| <= capacity, insertion order is a duplicate-free listing of exactly the stored keys, each plan was generated for its key. histories: breadth-first exploration of request sequences (alphabet new1, new2, new-large (>= 400 symbols), oldest, newest, middle, most-recently-evicted) from 7 seed prefixes around the capacity (incl. caches whose plans are all large and all requested twice), each node re-established by replaying its whole request history on a cleared real global cache, de-duplicated by the cache snapshot; every request runs under a time limit (a call that does not return is a violation); no eviction policy is assumed: only transparency and the invariants are judged; plus all sequences of a fixed length on one continuously living cache; plus every ordered pair of confusable block sizes (Table 2 rows sharing their systematic index, neighbouring rows, sizes padded to the same K') requested one after the other on an empty cache. Beside the exhaustive parts, 6 free-running OS threads issue 3 000 (thorough 30 000) requests each over 6 sizes against references - a monitor for synchronisation outside the primitives loom intercepts; NOT exhaustive, only its failures count. distinct_nontrivial = distinct cache states + distinct final orders.".into(),
         exhaustive: false,
         assumptions: vec!["at most 4 threads; std::sync::Mutex itself and weak-memory effects inside it are trusted (loom models the lock as a scheduling point)".into(), "loom failures abort the child: the model name is the replay (deterministic re-exploration)".into()],
         extra: Map::new(),
